@@ -304,14 +304,14 @@ def part_a(rep, tier):
     return len(cases), len(distinct)
 
 
-def variants_b(Ps, Ks, Ls, forced=False):
+def variants_b(Ps, Ks, Ls, forced=False, nsweeps=1):
     out = []
     for L in Ls:
         for P in Ps:
             for K in Ks:
                 for atd in (False, True):
                     for jac in ((True, False) if L == 1 else (True,)):
-                        out.append(block.default_cfg(P=P, K=K, L=L, predict='pfasst_burnin' if L > 1 else None, jac=jac, all_to_done=atd, forced=forced, checks=('model', 'grammar', 'protocol')))
+                        out.append(block.default_cfg(P=P, K=K, L=L, nsweeps=nsweeps, predict='pfasst_burnin' if L > 1 else None, jac=jac, all_to_done=atd, forced=forced, checks=('model', 'grammar', 'protocol')))
     return out
 
 
@@ -330,6 +330,7 @@ def run(rep, tier):
         plan.append(('B full P<=3, K in 0..3, L<=2', variants_b((1, 2, 3), (0, 1, 2, 3), (1, 2)), None))
         plan.append(('B full P<=2, K=4', variants_b((1, 2), (4,), (1, 2)), None))
         plan.append(('B forced<=1 P<=2, K in 0..2', variants_b((1, 2), (0, 1, 2), (1, 2), forced=True), 1))
+        plan.append(('B full P<=3, K in 1..3, L<=2, two sweeps per iteration (an iteration is counted only if it sweeps)', variants_b((1, 2, 3), (1, 2, 3), (1, 2), nsweeps=2), None))
         plan.append(('B forced<=1, two blocks on the same steps (what a forced block leaves behind), P<=2, K in 1..2', [dict(c, nblocks=2, conv_cost=1) for c in variants_b((1, 2), (1, 2), (1,), forced=True)], 1))
         plan.append(('B residual answers incl. not-a-number (<=2 non-default answers), P<=2, K in 1..3', [dict(c, nan_answers=True, conv_cost=1) for c in variants_b((1, 2), (1, 2, 3), (1, 2))], 2))
         plan.append(('B forced<=1, a second run() on the same controller, P<=2, K in 1..2', [dict(c, second_run=0.125 * c['P'], conv_cost=1) for c in variants_b((1, 2), (1, 2), (1,), forced=True)], 1))
@@ -339,6 +340,7 @@ def run(rep, tier):
         plan.append(('B full P<=3, K in 0..4, L<=2', variants_b((1, 2, 3), (0, 1, 2, 3, 4), (1, 2)), None))
         plan.append(('B forced<=1 P<=3, K in 0..3', variants_b((1, 2, 3), (0, 1, 2, 3), (1, 2), forced=True), 1))
         plan.append(('B forced<=2 P<=2, K in 0..2', variants_b((1, 2), (0, 1, 2), (1, 2), forced=True), 2))
+        plan.append(('B full P<=3, K in 0..3, L<=3, two and three sweeps per iteration', variants_b((1, 2, 3), (0, 1, 2, 3), (1, 2, 3), nsweeps=2) + variants_b((1, 2, 3), (1, 2), (1, 2), nsweeps=3), None))
         plan.append(('B forced<=2, three blocks on the same steps (what a forced block leaves behind), P<=3, K in 0..2', [dict(c, nblocks=3, conv_cost=1) for c in variants_b((1, 2, 3), (0, 1, 2), (1, 2), forced=True)], 2))
     bounds = []
     for label, vs, bound in plan:
